@@ -169,11 +169,11 @@ impl<'input> Lexer<'input> {
                     let start = start_noprefix - 2;
                     self.expect_peek_not(is_decimal_char)?; // disallow 0b010112
                     match u128::from_str_radix(&bin, 2) {
-                        Ok(value) => {
+                        Ok(value) if bin.len() <= 128 => {
                             let width = WireWidth::Bits(bin.len() as u8);
                             return Ok((start, Tok::Constant(WireValue::new(value).as_width(width)), end));
                         }
-                        Err(_) => {
+                        _ => {
                             return Err(Error::InvalidConstant((start, end)));
                         }
                     }
